@@ -517,3 +517,71 @@ Print Assumptions C04_sufficiency_convex.
 Print Assumptions C04_sufficiency_indicator.
 Print Assumptions C04_sufficiency_strongly_convex.
 Print Assumptions C04_sufficiency_hull_spec.
+
+(** * (f, continued) sufficiency for ConvexLipschitzFunction(M), ConvexSupportFunction(M), and the operator
+    classes that Spec/Classes.v defines on graphs *)
+
+(** ConvexLipschitzFunction(M): the max-affine interpolant is M-Lipschitz when every |g_i|^2 <= M^2 (each affine
+    piece by Cauchy-Schwarz, a finite max of M-Lipschitz functions is M-Lipschitz); only M^2 occurs, no sign
+    condition on M is needed. *)
+Theorem C04_sufficiency_convex_lipschitz :
+  forall (E : ips) (M : R) (l : list (@triple E)),
+    l <> [] ->
+    (forall xi gi fi xj gj fj, In (xi, gi, fi) l -> In (xj, gj, fj) l -> ref_convex xi xj gj fi fj <= 0) ->
+    (forall x g f, In (x, g, f) l -> ref_bounded_g M g <= 0) ->
+    exists F : @fn E,
+      lipschitz_fn M F /\ convex_member F /\ convex_seg F /\
+      forall s, In s l -> genuine_sub F s.
+Proof. exact @suff_convex_lipschitz. Qed.
+
+(** ConvexSupportFunction(M), M finite or not: C = convex hull of the g_i, sigma = max_i <g_i, .>; beyond
+    [support_member] (sigma dominates <c, .> on C; C inside the ball of radius M) the conclusion records that C
+    is convex and that sigma x is attained in C at every x, i.e. sigma IS the support function of C. *)
+Theorem C04_sufficiency_support :
+  forall (E : ips) (M : option R) (l : list (@triple E)),
+    l <> [] ->
+    (forall x g f, In (x, g, f) l -> ref_sup_fenchel x g f = 0) /\
+    (forall xi gi fi xj gj fj, In (xi, gi, fi) l -> In (xj, gj, fj) l -> ref_sup_convex xj gi gj <= 0) /\
+    match M with
+    | Some m => forall x g f, In (x, g, f) l -> ref_bounded_g m g <= 0
+    | None => True
+    end ->
+    exists (C : E -> Prop) (sigma : E -> R),
+      support_member M C sigma /\
+      (forall c c' t, C c -> C c' -> 0 <= t <= 1 -> C (seg c c' t)) /\
+      (forall x, exists c, C c /\ inner c x = sigma x) /\
+      forall s, In s l -> genuine_support C sigma s.
+Proof. exact @suff_support. Qed.
+
+(** Operator classes defined on graphs (monotone, strongly monotone, cocoercive, negatively comonotone, Lipschitz,
+    nonexpansive): interpolation BY THE FINITE GRAPH ITSELF.  [graph_of l x g := exists f, In (x, g, f) l];
+    [all_pairs r l := forall xi gi fi xj gj fj, In (xi,gi,fi) l -> In (xj,gj,fj) l -> r xi gi xj gj <= 0].
+    The finite graph is a member of the class iff the reference condition holds on all ordered pairs, and every
+    sample is a genuine sample of it; this is what the first-principles definitions admit.  The extension to a
+    maximal monotone / everywhere-defined Lipschitz operator (Zorn, Kirszbraun-Valentine) is not proved and stays
+    in the trusted base. *)
+Theorem C04_sufficiency_graph_classes :
+  forall (E : ips) (l : list (@triple E)),
+    (forall s, In s l -> genuine_op (graph_of l) s) /\
+    (all_pairs ref_monotone l <-> monotone_op (graph_of l)) /\
+    (forall mu, all_pairs (ref_strong_monotone mu) l <-> strongly_monotone_op mu (graph_of l)) /\
+    (forall beta, all_pairs (ref_cocoercive beta) l <-> cocoercive_op beta (graph_of l)) /\
+    (forall rho, all_pairs (ref_neg_comonotone rho) l <-> neg_comonotone_op rho (graph_of l)) /\
+    (forall L, all_pairs (ref_lipschitz L) l <-> lipschitz_op L (graph_of l)) /\
+    (all_pairs ref_nonexpansive l <-> nonexpansive_op (graph_of l)).
+Proof. exact @suff_graph_classes. Qed.
+
+(** non-vacuity: the three triples (-1,-1,1), (0,0,0), (1,1,1) on the real line are samples of |x| as a
+    1-Lipschitz convex function, as the support function of [-1,1] (M = 1), and of a monotone nonexpansive graph *)
+Example C04_sufficiency_examples2 :
+  bounded_cond 1 ex_abs /\ support_cond (Some 1) ex_abs /\
+  all_pairs ref_monotone ex_abs /\ all_pairs ref_nonexpansive ex_abs.
+Proof.
+  exact (conj (proj1 suff_lipschitz_nonvacuous)
+              (conj (proj1 suff_support_nonvacuous)
+                    (conj (proj1 suff_graph_nonvacuous) (proj1 (proj2 suff_graph_nonvacuous))))).
+Qed.
+
+Print Assumptions C04_sufficiency_convex_lipschitz.
+Print Assumptions C04_sufficiency_support.
+Print Assumptions C04_sufficiency_graph_classes.
